@@ -213,6 +213,12 @@ Definition agg_sparse_check (c : agg_case) : bool :=
 Definition agg_check_any (c : agg_case) : bool :=
   if big_case c then agg_sparse_check c else agg_check c && agg_spec_check c.
 
+(* decidable equality of model outputs (Qc carries a canonicity proof: compare the fractions) *)
+Definition vm_eqb (a b : Qc * bool) : bool := qc_eqb (fst a) (fst b) && Bool.eqb (snd a) (snd b).
+Definition cells_eqb : list (list (Qc * bool)) -> list (list (Qc * bool)) -> bool := list_eqb (list_eqb vm_eqb).
+Definition ocells_eqb (a b : option (list (list (Qc * bool)))) : bool :=
+  match a, b with Some x, Some y => cells_eqb x y | None, None => true | _, _ => false end.
+
 Definition agg_explain (c : agg_case) :=
   if big_case c then (ccube_sparse_check c, xcube_sparse_check c, None, None) else
   (forallb (dim_wf_b (c_N c)) (map mkdim (c_dims c)), same_data (c_N c) (map mkdim (c_dims c)) (c_arrs c),
